@@ -1,2 +1,341 @@
-(* C14 theorems: under construction *)
-From SC Require Import KS.Proofs.
+(* C14 — KeyedSet is a set of items identified by key.
+   Statements only; every proof is one `exact`.  The model is KS/Model.v (a
+   transliteration of spec_classes/types/keyed.py:KeyedSet and of the inherited
+   collections.abc Set/MutableSet mixins), the specification is KS/Spec.v (an
+   insertion-ordered finite map key -> most recently added item).
+
+   Items, keys, the key function, == on both and the typed-container check
+   are arbitrary, subject to four hypotheses: == decides equality on keys and
+   on items (items are values); an item that can itself be used as a
+   dictionary key is its own key and the only item with that key (the class
+   docstring warns against universes where this fails); the key function,
+   where it is defined on a bare key, returns that key (otherwise it raises
+   TypeError; DESIGN section 7).  Both concrete universes used by the
+   correspondence check satisfy them (C14_hypotheses_hold_fst, C14_hypotheses_hold_self). *)
+From Coq Require Import List ZArith Bool Lia Permutation.
+From SC Require Import Base.Res Base.PyList KS.Model KS.Spec KS.Proofs Corr.KSCorr.
+Import ListNotations.
+Open Scope Z_scope.
+
+Section C14.
+  Context {item K : Type}.
+  Variable key : item -> K.
+  Variable keqb : K -> K -> bool.
+  Variable ieqb : item -> item -> bool.
+  Variable valid : item -> bool.
+  Variable as_key : item -> option K.
+  Variable as_item : K -> option item.
+  Variable key_of_key : K -> option K.
+  Hypothesis keqb_eq : forall a b, keqb a b = true <-> a = b.
+  Hypothesis ieqb_eq : forall a b, ieqb a b = true <-> a = b.
+  Hypothesis as_key_self : forall x k, as_key x = Some k ->
+    k = key x /\ forall y, key y = k -> y = x.
+  Hypothesis key_of_key_id : forall k k', key_of_key k = Some k' -> k' = k.
+
+  Notation dict := (@dict item K).
+  Notation run := (run key keqb ieqb valid as_key as_item key_of_key).
+  Notation step := (step key keqb ieqb valid as_key as_item key_of_key).
+  Notation spec_run := (spec_run key keqb ieqb valid key_of_key).
+  Notation from_iterable := (from_iterable key keqb ieqb valid).
+  Notation fresh := (fresh key keqb ieqb valid).
+  Notation omap := (omap key keqb ieqb valid).
+  Notation oitems := (@op_items item K key keqb).
+  Notation the_map := (@build item K key keqb).
+  Notation lookup := (@dict_get item K keqb).
+  Notation has := (@dict_mem item K keqb).
+  Notation put := (@dict_set item K keqb).
+  Notation drop := (@dict_del item K keqb).
+  Notation keys := (map (@fst K item)).
+  Notation Inv := (Inv key).          (* keys unique; every stored item sits under its own key *)
+  Notation TInv := (TInv valid).      (* every stored item passes the container's type check *)
+  Notation out_ok := (out_ok key valid).   (* a returned KeyedSet satisfies both *)
+  Notation loose := (loose key keqb).
+  (* loose e m xs: flag e is off, or the items xs agree with the map m on
+     shared keys - the condition under which membership of an item is
+     membership of its key *)
+
+  (* ---- the assoc list really is a finite map with insertion order ---- *)
+  Theorem C14_map_laws : forall k k' x (d : dict),
+    lookup k' (put k x d) = (if keqb k' k then Some x else lookup k' d) /\
+    lookup k' (drop k d) = (if keqb k' k then None else lookup k' d) /\
+    keys (put k x d) = (if has k d then keys d else keys d ++ [k]) /\
+    keys (drop k d) = filter (fun j => negb (keqb k j)) (keys d) /\
+    has k d = (match lookup k d with Some _ => true | None => false end).
+  Proof. exact (map_laws keqb keqb_eq). Qed.
+
+  (* ---- refinement: every sequence of operations, from every coherent
+     state, produces exactly the outputs and the content of the map
+     specification (insertion order included); the state stays coherent and
+     well typed, and so is every KeyedSet returned by an operator ---- *)
+  Theorem C14_refines_map : forall enf ops d,
+    Inv d -> TInv d -> Forall (@wf_op item K) ops ->
+    run enf d ops = spec_run enf d ops /\
+    Inv (snd (run enf d ops)) /\ TInv (snd (run enf d ops)) /\
+    Forall out_ok (fst (run enf d ops)).
+  Proof. exact (run_refines key keqb ieqb valid as_key as_item key_of_key keqb_eq ieqb_eq as_key_self key_of_key_id). Qed.
+
+  (* the constructor (and _from_iterable) builds exactly the specified new
+     container, which is coherent and well typed *)
+  Theorem C14_constructor : forall enf xs,
+    from_iterable enf xs = fresh enf xs /\
+    forall d, from_iterable enf xs = Ok d -> Inv d /\ TInv d.
+  Proof.
+    intros enf xs. split.
+    - exact (from_iterable_fresh key keqb ieqb valid keqb_eq ieqb_eq enf xs).
+    - exact (constructed_ok key keqb ieqb valid keqb_eq ieqb_eq enf xs).
+  Qed.
+
+  (* ---- invariant of every reachable state: keys unique, each stored item's
+     key is its dict key, and (typed) every stored item is well typed ---- *)
+  Theorem C14_reachable_invariant : forall enf xs d ops,
+    from_iterable enf xs = Ok d -> Forall (@wf_op item K) ops ->
+    let d' := snd (run enf d ops) in
+    NoDup (keys d') /\ Forall (fun p => fst p = key (snd p)) d' /\
+    forallb valid (vals d') = true.
+  Proof. exact (reachable_inv key keqb ieqb valid as_key as_item key_of_key keqb_eq ieqb_eq as_key_self key_of_key_id). Qed.
+
+  (* ---- an operation that raises leaves the dict exactly as it was ---- *)
+  Theorem C14_failed_operation_changes_nothing : forall enf d o e,
+    Inv d -> TInv d -> wf_op o -> fst (step enf d o) = Err e -> snd (step enf d o) = d.
+  Proof. exact (step_atomic key keqb ieqb valid as_key as_item key_of_key keqb_eq ieqb_eq as_key_self key_of_key_id). Qed.
+
+  (* ---- enforce_item_equivalence=True: adding an unequal item under an
+     existing key raises ValueError (TypeError when it is ill typed too) and
+     changes nothing; in every other case a well-typed item is stored ---- *)
+  Theorem C14_enforce_add_unequal : forall d x y,
+    Inv d -> lookup (key x) d = Some y -> y <> x ->
+    step true d (OAdd x) = (Err (if valid x then ValueErr else TypeErr), d).
+  Proof. exact (enforce_add_unequal key keqb ieqb valid as_key as_item key_of_key ieqb_eq). Qed.
+
+  Theorem C14_add_succeeds : forall enf d x, valid x = true ->
+    (enf = false \/ forall y, lookup (key x) d = Some y -> y = x) ->
+    step enf d (OAdd x) = (Ok RNone, put (key x) x d).
+  Proof. exact (add_succeeds key keqb ieqb valid as_key as_item key_of_key ieqb_eq). Qed.
+
+  (* ---- typed: an ill-typed item or key is rejected and nothing changes
+     (that no operation at all lets one in is C14_refines_map /
+     C14_reachable_invariant: TInv and out_ok) ---- *)
+  Theorem C14_typed_add_rejects : forall enf d x, valid x = false ->
+    step enf d (OAdd x) = (Err TypeErr, d).
+  Proof. exact (typed_add_rejects key keqb ieqb valid as_key as_item key_of_key). Qed.
+
+  (* ---- set algebra on keys.  (eb, b) is the other operand read as a map:
+     a KeyedSet operand as it is, a built-in set or list as the KeyedSet of
+     its items configured like the receiver. ---- *)
+  Theorem C14_difference : forall enf d p eb b,
+    Inv d -> TInv d -> omap enf d p = Ok (eb, b) -> loose eb b (vals d) ->
+    exists r, step enf d (OSub p) = (Ok (RNew r), d) /\
+              keys r = filter (fun k => negb (has k b)) (keys d).
+  Proof. exact (T_sub key keqb ieqb valid as_key as_item key_of_key keqb_eq ieqb_eq as_key_self key_of_key_id). Qed.
+
+  Theorem C14_intersection : forall enf d p r d',
+    Inv d -> TInv d -> loose enf d (oitems d p) ->
+    (step enf d (OAnd p) = (Ok (RNew r), d') \/ step enf d (ORAnd p) = (Ok (RNew r), d')) ->
+    forall k, In k (keys r) <-> In k (keys d) /\ In k (map key (oitems d p)).
+  Proof. exact (T_and key keqb ieqb valid as_key as_item key_of_key keqb_eq ieqb_eq as_key_self key_of_key_id). Qed.
+
+  Theorem C14_union : forall enf d p r d', Inv d -> TInv d ->
+    (step enf d (OOr p) = (Ok (RNew r), d') \/ step enf d (OROr p) = (Ok (RNew r), d')) ->
+    forall k, In k (keys r) <-> In k (keys d) \/ In k (map key (oitems d p)).
+  Proof. exact (T_or key keqb ieqb valid as_key as_item key_of_key keqb_eq ieqb_eq as_key_self key_of_key_id). Qed.
+
+  Theorem C14_reflected_difference : forall enf d p eb b r d',
+    Inv d -> TInv d -> omap enf d p = Ok (eb, b) -> loose enf d (oitems d p) ->
+    step enf d (ORSub p) = (Ok (RNew r), d') ->
+    forall k, In k (keys r) <-> In k (keys b) /\ ~ In k (keys d).
+  Proof. exact (T_rsub key keqb ieqb valid as_key as_item key_of_key keqb_eq ieqb_eq as_key_self key_of_key_id). Qed.
+
+  Theorem C14_symmetric_difference : forall enf d p eb b r d',
+    Inv d -> TInv d -> omap enf d p = Ok (eb, b) ->
+    loose eb b (vals d) -> loose enf d (oitems d p) ->
+    (step enf d (OXor p) = (Ok (RNew r), d') \/ step enf d (ORXor p) = (Ok (RNew r), d')) ->
+    forall k, In k (keys r) <->
+              (In k (keys d) /\ ~ In k (keys b)) \/ (In k (keys b) /\ ~ In k (keys d)).
+  Proof. exact (T_xor key keqb ieqb valid as_key as_item key_of_key keqb_eq ieqb_eq as_key_self key_of_key_id). Qed.
+
+  Theorem C14_le : forall enf d p eb b,
+    Inv d -> TInv d -> comparable p -> omap enf d p = Ok (eb, b) -> loose eb b (vals d) ->
+    exists t, step enf d (OLe p) = (Ok (RBool t), d) /\ (t = true <-> incl (keys d) (keys b)).
+  Proof. exact (T_le key keqb ieqb valid as_key as_item key_of_key keqb_eq ieqb_eq as_key_self key_of_key_id). Qed.
+
+  Theorem C14_lt : forall enf d p eb b,
+    Inv d -> TInv d -> comparable p -> omap enf d p = Ok (eb, b) -> loose eb b (vals d) ->
+    exists t, step enf d (OLt p) = (Ok (RBool t), d) /\
+              (t = true <-> incl (keys d) (keys b) /\ (length d < length b)%nat).
+  Proof. exact (T_lt key keqb ieqb valid as_key as_item key_of_key keqb_eq ieqb_eq as_key_self key_of_key_id). Qed.
+
+  Theorem C14_ge : forall enf d p eb b,
+    Inv d -> TInv d -> comparable p -> omap enf d p = Ok (eb, b) -> loose enf d (vals b) ->
+    exists t, step enf d (OGe p) = (Ok (RBool t), d) /\ (t = true <-> incl (keys b) (keys d)).
+  Proof. exact (T_ge key keqb ieqb valid as_key as_item key_of_key keqb_eq ieqb_eq as_key_self key_of_key_id). Qed.
+
+  Theorem C14_gt : forall enf d p eb b,
+    Inv d -> TInv d -> comparable p -> omap enf d p = Ok (eb, b) -> loose enf d (vals b) ->
+    exists t, step enf d (OGt p) = (Ok (RBool t), d) /\
+              (t = true <-> incl (keys b) (keys d) /\ (length b < length d)%nat).
+  Proof. exact (T_gt key keqb ieqb valid as_key as_item key_of_key keqb_eq ieqb_eq as_key_self key_of_key_id). Qed.
+
+  Theorem C14_isdisjoint : forall enf d p, Inv d -> TInv d -> loose enf d (oitems d p) ->
+    exists t, step enf d (OIsDisjoint p) = (Ok (RBool t), d) /\
+              (t = true <-> forall k, In k (map key (oitems d p)) -> ~ In k (keys d)).
+  Proof. exact (T_isdisjoint key keqb ieqb valid as_key as_item key_of_key keqb_eq ieqb_eq as_key_self key_of_key_id). Qed.
+
+  (* == between two KeyedSets is equality of mappings: same keys, equal items
+     (interpretation recorded in docs/C14.md); != is its negation *)
+  Theorem C14_eq_is_mapping_equality : forall enf d eb xs, Inv d -> TInv d ->
+    exists t, step enf d (OEq (PKS eb xs)) = (Ok (RBool t), d) /\
+              step enf d (ONe (PKS eb xs)) = (Ok (RBool (negb t)), d) /\
+              (t = true <-> forall k, lookup k d = lookup k (the_map xs)).
+  Proof. exact (T_eq key keqb ieqb valid as_key as_item key_of_key keqb_eq ieqb_eq). Qed.
+
+  Theorem C14_inplace_union : forall enf d p r o, Inv d -> TInv d ->
+    step enf d (OIOr p) = (Ok o, r) ->
+    o = RSelf /\ forall k, In k (keys r) <-> In k (keys d) \/ In k (map key (oitems d p)).
+  Proof. exact (T_ior key keqb ieqb valid as_key as_item key_of_key keqb_eq ieqb_eq as_key_self key_of_key_id). Qed.
+
+  Theorem C14_inplace_intersection : forall enf d p eb b,
+    Inv d -> TInv d -> omap enf d p = Ok (eb, b) -> loose eb b (vals d) ->
+    exists r, step enf d (OIAnd p) = (Ok RSelf, r) /\ keys r = filter (fun k => has k b) (keys d).
+  Proof. exact (T_iand key keqb ieqb valid as_key as_item key_of_key keqb_eq ieqb_eq as_key_self key_of_key_id). Qed.
+
+  Theorem C14_inplace_difference : forall enf d p, Inv d -> TInv d -> loose enf d (oitems d p) ->
+    exists r, step enf d (OISub p) = (Ok RSelf, r) /\
+              keys r = filter (fun k => negb (existsb (fun x => keqb (key x) k) (oitems d p))) (keys d).
+  Proof. exact (T_isub key keqb ieqb valid as_key as_item key_of_key keqb_eq ieqb_eq as_key_self key_of_key_id). Qed.
+
+  Theorem C14_inplace_symmetric_difference : forall enf d p eb b r o,
+    Inv d -> TInv d -> omap enf d p = Ok (eb, b) ->
+    loose eb b (vals d) -> loose enf d (oitems d p) -> p <> PSelf ->
+    step enf d (OIXor p) = (Ok o, r) ->
+    o = RSelf /\
+    forall k, In k (keys r) <->
+              (In k (keys d) /\ ~ In k (keys b)) \/ (In k (keys b) /\ ~ In k (keys d)).
+  Proof. exact (T_ixor key keqb ieqb valid as_key as_item key_of_key keqb_eq ieqb_eq as_key_self key_of_key_id). Qed.
+
+  Theorem C14_inplace_with_itself : forall enf d, Inv d -> TInv d ->
+    step enf d (OIXor PSelf) = (Ok RSelf, []) /\ step enf d (OISub PSelf) = (Ok RSelf, []).
+  Proof. exact (T_ixor_self key keqb ieqb valid as_key as_item key_of_key keqb_eq ieqb_eq as_key_self key_of_key_id). Qed.
+End C14.
+
+(* ---------------- non-vacuity ---------------- *)
+Lemma kieqb_eq a b : kieqb a b = true <-> a = b.
+Proof.
+  destruct a as [a1 a2], b as [b1 b2]. unfold kieqb. simpl.
+  rewrite andb_true_iff, !Z.eqb_eq. split; [intros [-> ->]; reflexivity|intro H; inversion H; auto].
+Qed.
+
+(* the hypotheses of the section hold in both universes of the correspondence check *)
+Example C14_hypotheses_hold_fst : forall bare,
+  (forall a b, Z.eqb a b = true <-> a = b) /\
+  (forall a b, kieqb a b = true <-> a = b) /\
+  (forall (x : kitem) (k : Z), (fun _ : kitem => @None Z) x = Some k ->
+     k = kkey_fst x /\ forall y, kkey_fst y = k -> y = x) /\
+  (forall k k', kok_fst bare k = Some k' -> k' = k).
+Proof.
+  intro bare. split; [exact Z.eqb_eq|]. split; [exact kieqb_eq|]. split; [intros; discriminate|].
+  intros k k'. unfold kok_fst. destruct bare; intro H; inversion H; reflexivity.
+Qed.
+
+Example C14_hypotheses_hold_self :
+  (forall a b, kieqb a b = true <-> a = b) /\
+  (forall (x k : kitem), Some x = Some k -> k = kkey_self x /\ forall y, kkey_self y = k -> y = x) /\
+  (forall k k' : kitem, Some k = Some k' -> k' = k).
+Proof.
+  split; [exact kieqb_eq|]. split.
+  - intros x k H. inversion H; subst. unfold kkey_self. auto.
+  - intros k k' H. now inversion H.
+Qed.
+
+(* a concrete non-trivial coherent, well-typed state *)
+Example C14_inv_holds_somewhere :
+  Inv kkey_fst [(2, (2, 5)); (1, (1, 0))] /\ TInv (kvalid_of true) [(2, (2, 5)); (1, (1, 0))].
+Proof.
+  split; [split|reflexivity].
+  - repeat constructor; simpl; intuition discriminate.
+  - repeat constructor.
+Qed.
+
+(* the enforce theorem is not vacuous: a conflicting add really is rejected,
+   an equal one and one under a new key are accepted *)
+Example C14_enforce_example :
+  let st := step kkey_fst Z.eqb kieqb (kvalid_of true) (fun _ => None) (fun _ => None) (kok_fst true) true in
+  st [(1, (1, 0))] (OAdd (1, 7)) = (Err ValueErr, [(1, (1, 0))]) /\
+  st [(1, (1, 0))] (OAdd (1, 0)) = (Ok RNone, [(1, (1, 0))]) /\
+  st [(1, (1, 0))] (OAdd (2, 7)) = (Ok RNone, [(1, (1, 0)); (2, (2, 7))]) /\
+  st [(1, (1, 0))] (OIOr (PList [(2, 7); (1, 7)])) = (Err ValueErr, [(1, (1, 0))]).
+Proof. vm_compute. repeat split. Qed.
+
+(* with the flag on and operands that disagree on a shared key the algebra is
+   on (key, item) pairs, not on keys: the `loose` hypotheses cannot be dropped *)
+Example C14_loose_is_needed :
+  let st := step kkey_fst Z.eqb kieqb (fun _ => true) (fun _ => None) (fun _ => None) (kok_fst true) true in
+  st [(1, (1, 0))] (OSub (PKS true [(1, 7)])) = (Ok (RNew [(1, (1, 0))]), [(1, (1, 0))]) /\
+  st [(1, (1, 0))] (OLe (PKS true [(1, 7)])) = (Ok (RBool false), [(1, (1, 0))]) /\
+  st [(1, (1, 0))] (OOr (PKS true [(1, 7)])) = (Err ValueErr, [(1, (1, 0))]).
+Proof. vm_compute. repeat split. Qed.
+
+(* ---------------- regression evidence: the code before the fix: commits ---------------- *)
+(* bdb9162: _from_iterable = cls(it) dropped the key function: results of
+   | & - ^ were keyed by the items themselves, so two items with one key
+   ended up side by side *)
+Example C14_old_from_iterable_refuted :
+  let keyP := fun x : kitem => (fst x, 0) in
+  let r := old_from_iterable kieqb kkey_self [(1, 0); (1, 5)] in
+  ~ NoDup (map keyP (vals r)).
+Proof. vm_compute. intro N. inversion N as [|? ? H _]. apply H. left. reflexivity. Qed.
+
+(* 7fe50f5: the inherited |= added items one at a time, so a rejected item
+   left the earlier ones behind *)
+Example C14_old_ior_refuted :
+  let d := [(1, (1, 0))] in
+  exists d', old_ior kkey_fst Z.eqb kieqb (fun _ => true) true d [(3, 0); (1, 7)] = (Err ValueErr, d')
+             /\ d' <> d.
+Proof. eexists; split; [vm_compute; reflexivity|discriminate]. Qed.
+
+(* 0c6b13c: against a built-in set, `-` compared items instead of keys *)
+Example C14_old_sub_pyset_refuted :
+  let d := [(1, (1, 0)); (2, (2, 0))] in
+  exists r, old_sub_pyset kkey_fst Z.eqb kieqb (fun _ => true) false d [(1, 7)] = Ok r
+            /\ In 1 (map fst r).
+Proof. eexists; split; [vm_compute; reflexivity|simpl; auto]. Qed.
+
+(* 75c7cd7: s[item] with an unhashable item raised TypeError before its key was extracted *)
+Example C14_old_getitem_refuted :
+  old_getitem kkey_fst Z.eqb (fun _ => None) (kok_fst false) (fun _ => false)
+              [(1, (1, 0))] (AItem (1, 0)) = Err TypeErr /\
+  getitem kkey_fst Z.eqb (fun _ => None) (kok_fst false) [(1, (1, 0))] (AItem (1, 0)) = Ok (1, 0).
+Proof. vm_compute. split; reflexivity. Qed.
+
+Print Assumptions C14_map_laws.
+Print Assumptions C14_refines_map.
+Print Assumptions C14_constructor.
+Print Assumptions C14_reachable_invariant.
+Print Assumptions C14_failed_operation_changes_nothing.
+Print Assumptions C14_enforce_add_unequal.
+Print Assumptions C14_add_succeeds.
+Print Assumptions C14_typed_add_rejects.
+Print Assumptions C14_difference.
+Print Assumptions C14_intersection.
+Print Assumptions C14_union.
+Print Assumptions C14_reflected_difference.
+Print Assumptions C14_symmetric_difference.
+Print Assumptions C14_le.
+Print Assumptions C14_lt.
+Print Assumptions C14_ge.
+Print Assumptions C14_gt.
+Print Assumptions C14_isdisjoint.
+Print Assumptions C14_eq_is_mapping_equality.
+Print Assumptions C14_inplace_union.
+Print Assumptions C14_inplace_intersection.
+Print Assumptions C14_inplace_difference.
+Print Assumptions C14_inplace_symmetric_difference.
+Print Assumptions C14_inplace_with_itself.
+Print Assumptions C14_hypotheses_hold_fst.
+Print Assumptions C14_hypotheses_hold_self.
+Print Assumptions C14_inv_holds_somewhere.
+Print Assumptions C14_enforce_example.
+Print Assumptions C14_loose_is_needed.
+Print Assumptions C14_old_from_iterable_refuted.
+Print Assumptions C14_old_ior_refuted.
+Print Assumptions C14_old_sub_pyset_refuted.
+Print Assumptions C14_old_getitem_refuted.
